@@ -316,7 +316,7 @@ def compare(driver, streams):
                     parts = s.m[ti].split(' ', 2)
                     tdefs[parts[1]] = parts[2]
                 ti += 1
-            if got[j] != exp[j]:
+            if got[j] != exp[j] and not (exp[j] == 'err *' and got[j].startswith('err ')):
                 op = s.m[mi]
                 toks = op.split(' ')
                 tid = toks[2] if toks[0] == 'fault' else (toks[1] if len(toks) > 1 else '')
@@ -344,6 +344,8 @@ def compare_stream(driver, s):
     bad = 0
     skipped = 0
     for j in range(n):
+        if exp[j] == 'err *' and got[j].startswith('err '):
+            continue   # rejected by both; the code is deliberately not compared (more than one defect)
         if got[j] != exp[j]:
             # fault positions: the implementation's k-th call may lie beyond the model's last call when the
             # implementation splits a transfer into more calls than the model does (the property does not fix
